@@ -68,6 +68,24 @@ def neighbour_table(rng, t):
     return t
 
 
+class TableSub(dict):
+    """A caller's own dict subclass (config objects often are)."""
+
+
+def as_caller_dict(t, rng):
+    """The table in one of the dict types callers hold it in; all are dicts, so all are valid arguments."""
+    x = rng.random()
+    if x < 0.8:
+        return dict(t)
+    if x < 0.88:
+        import collections
+        return collections.OrderedDict(t)
+    if x < 0.94:
+        import collections
+        return collections.defaultdict(int, t)
+    return TableSub(t)
+
+
 def set_table_hostile(sf, t, rng, ctx=None):
     """Set table t the way an untidy caller does: pass a dict, keep the reference, and (sometimes) change or empty
     that dict afterwards.  Returns the table the library reports to be in force.  With copy semantics (property
@@ -90,7 +108,7 @@ def set_table_hostile(sf, t, rng, ctx=None):
     if isinstance(t, str):
         sf.set_semantic_constraints(t)
     else:
-        passed = dict(t)
+        passed = as_caller_dict(t, rng)
         sf.set_semantic_constraints(passed)
     if rng.random() < 0.15:
         # a rejected update right after the accepted one (valid, different entries first, then one bad entry)
@@ -174,6 +192,9 @@ def invalid_update(rng, current=None):
         ({"?": 4, "C+": 1}, "bad key"),
         ("nonsense", "unknown preset"),
         (5, "wrong type"),
+        (__import__("types").MappingProxyType({"?": 4, "C": 4}), "wrong type (mapping that is not a dict)"),
+        ((("?", 4), ("C", 4)), "wrong type"),
+        (b"default", "wrong type"),
         (None, "wrong type"),
         ({"?": 4, "c": 2}, "bad element"),
         ({"?": 4, "C+1-1": 2}, "bad key"),
